@@ -51,7 +51,7 @@ ASSUMPTIONS = ["selection reference = backward reachability cut by provided name
                "an error 'names what is missing' if a missing root, or an unprovided intermediate between S and a missing root, occurs as an identifier in "
                "a quoted/backticked part of the message (in the whole message if nothing is quoted)",
                "a MapSpec pipeline whose unrestricted map disagrees with the denotation is skipped (C01's business)"]
-BUDGET = {"quick": 150.0, "thorough": 1800.0}
+BUDGET = {"quick": 220.0, "thorough": 2400.0}
 
 
 def _quiet(fn, *a, **k):
